@@ -98,7 +98,8 @@ def extract(repo=None, force=False):
             (f for f in os.listdir(WORK) if f.startswith("facts-") and f.endswith(".json")),
             key=lambda f: os.path.getmtime(os.path.join(WORK, f)),
         )
-        for f in olds[:-4]:
+        keep = int(os.environ.get("VERIF_FACT_CACHE", "300"))  # the self-test analyses ~200 source variants; one fact file is ≈11 MB
+        for f in olds[:-keep]:
             try:
                 os.remove(os.path.join(WORK, f))
             except OSError:
